@@ -113,6 +113,10 @@ def build(cspec):
         cfs[n] = sp.ContinuousFactor(n, distribution=dist)
     cons = []
     tree = cspec["base"]["block"]
+    flat = tree["op"] == "cross" and tree.get("ctor", "CrossBlock") == "CrossBlock" and len(tree["crossings"]) == 1
+    if not cspec["cont"] and not cspec.get("ccons") and not flat:
+        # purely discrete: any block shape (several crossings, combinators) through the general builder
+        return pool.block(tree), probes
     for c in tree["cons"]:
         cons.append(pool.constraint(c))
     for ci, cc in enumerate(cspec.get("ccons", [])):
